@@ -1,21 +1,27 @@
 package c15
 
 import (
+	"crypto/sha256"
 	"fmt"
 	"path"
 	"sort"
 	"strconv"
 	"strings"
+	"sync"
 )
 
-// ---- reference model -------------------------------------------------------------------------
+// The deciding oracle is RELATIONAL (section "judge" below): nothing pins a root encoding or a notion of
+// "malformed" beyond the documented format. The reference model at the top of this file is a second
+// opinion on today's executor: where it disagrees with the implementation without any relational
+// constraint being violated, the disagreement is counted, never reported as a violation.
+
+// ---- reference model (second opinion) --------------------------------------------------------
 //
-// Independent of the code under test: a map from normalised key to value, changed only by
-// well-formed blocks. A transaction is "key=value" (split at the first '='); the key names a
-// slash-separated path and is normalised the way a path is ("a", "/a", "x/../a" are one key);
-// a block is refused as a whole when one of its transactions has no '=', has an empty key, or
-// names one of the two reserved genesis keys. The root is the concatenation of "key:value;"
-// over the keys in byte order. Nothing else (finalization, mempool, InitChain, restarts) enters.
+// A map from normalised key to value, changed only by well-formed blocks. A transaction is
+// "key=value" (split at the first '='); the key names a slash-separated path and is normalised the
+// way a path is ("a", "/a", "x/../a" are one key); a block is refused as a whole when one of its
+// transactions has no '=', has an empty key, or names one of the two reserved genesis keys. The
+// root is the concatenation of "key:value;" over the keys in byte order.
 
 const fhKey = "/finalizedHeight"
 
@@ -69,15 +75,89 @@ func render(state map[string]string) string {
 	return sb.String()
 }
 
-// renderWithFH is the root the predicted defect produces: the model state with the entry
-// /finalizedHeight forced to what was physically written last under that key.
-func renderWithFH(state map[string]string, fh string) string {
-	c := make(map[string]string, len(state)+1)
-	for k, v := range state {
-		c[k] = v
+// ---- what the statement itself fixes about transactions ------------------------------------------
+
+// mustRefuse reports whether the documented format "key=value" already excludes the transaction:
+// no '=' at all, or nothing in front of the first '='. Everything else (reserved names and their
+// aliases, padding, blank keys) is left to the implementation, which is only held to ONE verdict
+// per transaction string.
+func mustRefuse(tx string) bool {
+	i := strings.IndexByte(tx, '=')
+	return i <= 0
+}
+
+func blockMustRefuse(b Block) (string, bool) {
+	for _, tx := range b.Txs {
+		if mustRefuse(tx) {
+			return tx, true
+		}
 	}
-	c[fhKey] = fh
-	return render(c)
+	return "", false
+}
+
+// ---- canonical histories -----------------------------------------------------------------------
+
+// extendKey appends transactions to a canonical history: the ordered sequence of the transactions of
+// all accepted first executions, block boundaries and empty blocks not included ("the ordered
+// transactions executed so far").
+func extendKey(key string, txs []string) string {
+	if len(txs) == 0 {
+		return key
+	}
+	h := sha256.New()
+	h.Write([]byte(key))
+	for _, t := range txs {
+		fmt.Fprintf(h, "%d:", len(t))
+		h.Write([]byte(t))
+	}
+	return string(h.Sum(nil))
+}
+
+func blockKey(txs []string) string {
+	return extendKey("block", txs) + strconv.Itoa(len(txs))
+}
+
+// ---- verdicts observed for single transactions (run-wide, probe-and-remember) --------------------
+
+type txVerdict struct {
+	refused bool
+	err     string
+}
+
+// verdictBook remembers, for the whole run, the verdict this build gave for a transaction string
+// when it was offered alone on a scratch instance.
+type verdictBook struct {
+	mu     sync.Mutex
+	probe  func(tx string) (refused bool, err string, ok bool)
+	known  map[string]txVerdict
+	probes int64
+}
+
+func (v *verdictBook) lookup(tx string) (txVerdict, bool) {
+	v.mu.Lock()
+	defer v.mu.Unlock()
+	t, ok := v.known[tx]
+	return t, ok
+}
+
+// ask returns the remembered verdict or probes the transaction once.
+func (v *verdictBook) ask(tx string) (txVerdict, bool) {
+	v.mu.Lock()
+	defer v.mu.Unlock()
+	if t, ok := v.known[tx]; ok {
+		return t, true
+	}
+	if v.probe == nil {
+		return txVerdict{}, false
+	}
+	ref, e, ok := v.probe(tx)
+	if !ok {
+		return txVerdict{}, false
+	}
+	v.probes++
+	t := txVerdict{refused: ref, err: e}
+	v.known[tx] = t
+	return t, true
 }
 
 // ---- judge -----------------------------------------------------------------------------------
@@ -85,74 +165,329 @@ func renderWithFH(state map[string]string, fh string) string {
 type problem struct {
 	clause  string
 	detail  string
-	finding bool // failure with the predicted shape of C15-setfinal-in-root, inside its trigger region
+	finding string // id of the finding whose predicted shape this failure has ("" = none)
 }
 
 type hitFn func(clause string)
+type countFn func(name string)
 
-// rootSeen is one root returned for a block, with what the judge knew at that moment.
+// rootSeen is one root returned for a canonical history, with what the judge knew at that moment.
 type rootSeen struct {
-	root     string
-	ok       bool
-	physFH   string // value physically under /finalizedHeight as far as the calls tell
-	hasFH    bool   // whether anything was written under that key
-	finals   int    // successful SetFinal calls so far on this instance
-	mempool  int    // InjectTx/GetTxs calls so far
-	reopens  int
-	inits    int
-	expected string
+	root    string
+	inst    string
+	call    int
+	what    string
+	physFH  string // value physically under /finalizedHeight as far as the calls tell
+	hasFH   bool   // whether anything was written under that key
+	finals  int    // successful SetFinal calls so far on this instance
+	mempool int    // InjectTx/GetTxs calls so far
+	reopens int
+	inits   int
+}
+
+type keyRec struct {
+	first  rootSeen
+	byInst map[string]rootSeen
+}
+
+type blockSeen struct {
+	refused bool
+	where   string
+	err     string
+}
+
+// learned is what one history (both instances) has taught so far.
+type learned struct {
+	roots  map[string]*keyRec   // canonical history -> roots seen for it
+	inits  map[string]rootSeen  // canonical history at the first successful InitChain -> root it returned
+	initOK map[string]blockSeen // canonical history at the first InitChain -> whether it succeeded
+	blocks map[string]blockSeen // tx list -> verdict
+	okTx   map[string]string    // tx string -> where it was accepted inside a block
+	oldRe  map[string]blockSeen // canonical history + older block offered again -> whether its transactions were applied again
+	book   *verdictBook
+}
+
+func newLearned(book *verdictBook) *learned {
+	return &learned{roots: map[string]*keyRec{}, inits: map[string]rootSeen{}, initOK: map[string]blockSeen{}, blocks: map[string]blockSeen{}, okTx: map[string]string{}, oldRe: map[string]blockSeen{}, book: book}
 }
 
 type instJudge struct {
-	name     string
-	state    map[string]string
-	inited   bool
-	genesis  string
-	physFH   string
-	hasFH    bool
-	finals   int
-	mempool  int
-	reopens  int
-	inits    int
-	since    map[string]bool // call kinds since the last root observation
-	byBlock  map[int]rootSeen
-	final    rootSeen
-	lastExec int
-	lastRoot string
-	lastSet  bool
-	cleanRe  bool // nothing but the re-execution itself happened since lastExec
-	probs    []problem
+	name  string
+	other string
+	h     History
+	L     *learned
+	hit   hitFn
+	count countFn
+
+	key       string
+	accepted  []int          // blocks accepted (first executions), in order
+	firstRoot map[int]string // block -> root returned by its first accepted execution
+	inited    bool
+	genesis   string
+	physFH    string
+	hasFH     bool
+	finals    int
+	mempool   int
+	reopens   int
+	inits     int
+	since     map[string]bool // call kinds since the last root observation
+
+	// second opinion
+	model      map[string]string
+	modelLost  bool
+	fhReserved bool
+
+	probs []problem
 }
 
-// checkRoot judges one observed root against the model.
-func (j *instJudge) checkRoot(clause, what, got string, hit hitFn) {
-	exp := render(j.state)
-	hit(clause)
-	for k := range j.since {
-		hit("root-unaffected-by-" + k)
+func (j *instJudge) seen(call int, what, got string) rootSeen {
+	return rootSeen{root: got, inst: j.name, call: call, what: what, physFH: j.physFH, hasFH: j.hasFH, finals: j.finals, mempool: j.mempool, reopens: j.reopens, inits: j.inits}
+}
+
+func (j *instJudge) histDesc() string {
+	if len(j.accepted) == 0 {
+		return "no transaction executed yet"
 	}
+	s := make([]string, len(j.accepted))
+	for i, b := range j.accepted {
+		s[i] = strconv.Itoa(b)
+	}
+	return "transactions of blocks [" + strings.Join(s, " ") + "] executed"
+}
+
+func (j *instJudge) modelNote() string {
+	if j.modelLost {
+		return ""
+	}
+	return fmt.Sprintf(" (reference model of today's executor: %q)", render(j.model))
+}
+
+func stripFH(root, fh string, has bool) string {
+	if !has {
+		return root
+	}
+	return strings.Replace(root, fhKey+":"+fh+";", "", 1)
+}
+
+func sinceKinds(m map[string]bool) []string {
+	ks := make([]string, 0, len(m))
+	for k := range m {
+		ks = append(ks, k)
+	}
+	sort.Strings(ks)
+	return ks
+}
+
+// observeRoot judges one returned root: whatever root was first seen for the same canonical history -
+// on this instance or on the other one, before or after SetFinal / mempool / InitChain / reopen calls,
+// refused blocks and re-executions - must be returned again.
+func (j *instJudge) observeRoot(kind string, call int, what, got string) {
+	j.hit("root-observed")
+	cur := j.seen(call, what, got)
+	rec := j.L.roots[j.key]
+	if rec == nil {
+		j.L.roots[j.key] = &keyRec{first: cur, byInst: map[string]rootSeen{j.name: cur}}
+		j.secondOpinion(got)
+		j.since = map[string]bool{}
+		return
+	}
+	j.hit("same-history-same-root")
+	own, hasOwn := rec.byInst[j.name]
+	oth, hasOth := rec.byInst[j.other]
+	if hasOth {
+		j.hit("instances-equal")
+		if oth.finals != cur.finals || oth.physFH != cur.physFH || oth.hasFH != cur.hasFH {
+			j.hit("equal-despite-setfinal-timing")
+		}
+		if oth.mempool != cur.mempool {
+			j.hit("equal-despite-mempool")
+		}
+		if oth.reopens != cur.reopens {
+			j.hit("equal-despite-restarts")
+		}
+		if oth.inits != cur.inits {
+			j.hit("equal-despite-initchain-calls")
+		}
+	}
+	clause := "same-history-same-root"
+	if !hasOwn {
+		clause = "instances-equal"
+	}
+	if hasOwn {
+		ks := sinceKinds(j.since)
+		for _, k := range ks {
+			j.hit("root-unaffected-by-" + k)
+		}
+		if len(ks) > 0 {
+			clause = "root-unaffected-by-" + ks[0]
+		}
+		if j.since["reopen"] {
+			j.hit("reopen-keeps-root")
+			clause = "reopen-keeps-root"
+		}
+		if j.since["refused-block"] {
+			j.hit("refused-block-changes-nothing")
+			clause = "refused-block-changes-nothing"
+		}
+	}
+	if kind == "reexec" {
+		j.hit("reexec-same-root")
+		clause = "reexec-same-root"
+	}
+	if !hasOwn {
+		rec.byInst[j.name] = cur
+	}
+	if got != rec.first.root {
+		ref := rec.first
+		if hasOwn && own.root != got {
+			ref = own // "before" on the same instance is the sharper witness
+		} else if hasOth && oth.root != got {
+			ref = oth
+		}
+		detail := fmt.Sprintf("instance %s, %s returned root %q with the %s; the same history gave root %q on instance %s at call %d (%s)%s",
+			j.name, what, got, j.histDesc(), ref.root, ref.inst, ref.call, ref.what, j.modelNote())
+		if len(j.since) > 0 && hasOwn {
+			detail += fmt.Sprintf("; between the two on this instance: %s", strings.Join(sinceKinds(j.since), ", "))
+		}
+		finding := ""
+		if (cur.finals > 0 || ref.finals > 0) && stripFH(got, cur.physFH, cur.hasFH) == stripFH(ref.root, ref.physFH, ref.hasFH) {
+			finding = FindingID
+			detail += fmt.Sprintf("; they differ exactly by a %s entry that SetFinal wrote", fhKey)
+		}
+		j.probs = append(j.probs, problem{clause, detail, finding})
+	}
+	j.secondOpinion(got)
 	j.since = map[string]bool{}
-	if got == exp {
-		return
-	}
-	if j.finals > 0 && j.hasFH && got == renderWithFH(j.state, j.physFH) {
-		j.probs = append(j.probs, problem{clause, fmt.Sprintf("instance %s, %s: root %q, expected %q: they differ exactly by the entry %s:%s; that SetFinal wrote", j.name, what, got, exp, fhKey, j.physFH), true})
-		return
-	}
-	j.probs = append(j.probs, problem{clause, fmt.Sprintf("instance %s, %s: root %q, expected %q", j.name, what, got, exp), false})
 }
 
-func (j *instJudge) seen(got string, ok bool) rootSeen {
-	return rootSeen{root: got, ok: ok, physFH: j.physFH, hasFH: j.hasFH, finals: j.finals, mempool: j.mempool, reopens: j.reopens, inits: j.inits, expected: render(j.state)}
+// secondOpinion compares a root with the reference model; a disagreement is evidence, not a verdict.
+func (j *instJudge) secondOpinion(got string) {
+	if j.modelLost {
+		j.count("root_observations_without_model_opinion")
+		return
+	}
+	if got == render(j.model) {
+		j.hit("model-agrees")
+	} else {
+		j.count("model_root_differs_not_judged")
+	}
 }
 
-// judgeInstance replays the calls of one instance on the model and compares every observation.
-// fhReserved says how this build treats a transaction that writes /finalizedHeight (refused like
-// the genesis keys, or accepted as an ordinary key); it was observed once at start-up.
-func judgeInstance(name string, h History, ops []Op, obs []Obs, fhReserved bool, hit hitFn) *instJudge {
-	j := &instJudge{name: name, state: map[string]string{}, since: map[string]bool{}, byBlock: map[int]rootSeen{}, lastExec: -1}
+// refusal judges a refused block offer (first offers only): the documented format explains it, or
+// some transaction of the block is refused whenever it is offered, or the refusal is inconsistent.
+func (j *instJudge) refusal(b Block, where, errText string) {
+	L := j.L
+	bk := blockKey(b.Txs)
+	if v, ok := L.blocks[bk]; ok {
+		j.hit("verdict-consistent")
+		if !v.refused {
+			j.probs = append(j.probs, problem{"verdict-consistent", fmt.Sprintf("instance %s, %s: the block was refused (%s), the same transaction list was executed at %s", j.name, where, errText, v.where), ""})
+		}
+	} else {
+		L.blocks[bk] = blockSeen{refused: true, where: "instance " + j.name + " " + where, err: errText}
+	}
+	if tx, must := blockMustRefuse(b); must {
+		j.hit("malformed-refused")
+		_ = tx
+		return
+	}
+	if len(b.Txs) == 0 {
+		return
+	}
+	// some transaction of the block must be one that this build refuses
+	distinct := map[string]bool{}
+	var unknown []string
+	for _, tx := range b.Txs {
+		if distinct[tx] {
+			continue
+		}
+		distinct[tx] = true
+		if v, ok := L.book.lookup(tx); ok {
+			if v.refused {
+				j.hit("verdict-consistent")
+				j.hit("refusal-explained-by-a-transaction-always-refused")
+				if w, acc := L.okTx[tx]; acc {
+					j.probs = append(j.probs, problem{"verdict-consistent", fmt.Sprintf("transaction %q is refused when offered alone (%s) and was executed inside a block at %s", tx, v.err, w), ""})
+				}
+				return
+			}
+			continue
+		}
+		unknown = append(unknown, tx)
+	}
+	if len(unknown) > 8 {
+		j.count("refused_large_block_not_explained_not_judged")
+		return
+	}
+	for _, tx := range unknown {
+		v, ok := L.book.ask(tx)
+		if !ok {
+			j.count("refused_block_probe_unavailable_not_judged")
+			return
+		}
+		if v.refused {
+			j.hit("verdict-consistent")
+			j.hit("refusal-explained-by-a-transaction-always-refused")
+			if w, acc := L.okTx[tx]; acc {
+				j.probs = append(j.probs, problem{"verdict-consistent", fmt.Sprintf("transaction %q is refused when offered alone (%s) and was executed inside a block at %s", tx, v.err, w), ""})
+			}
+			return
+		}
+	}
+	j.hit("verdict-consistent")
+	j.probs = append(j.probs, problem{"verdict-consistent", fmt.Sprintf("instance %s, %s: the block was refused (%s) although every one of its transactions is executed when offered alone", j.name, where, errText), ""})
+}
+
+// acceptance judges an executed block offer: it must not contain a transaction the documented format
+// excludes, nor one that this build refuses elsewhere.
+func (j *instJudge) acceptance(b Block, where string, root []byte) {
+	L := j.L
+	bk := blockKey(b.Txs)
+	if v, ok := L.blocks[bk]; ok {
+		j.hit("verdict-consistent")
+		if v.refused {
+			j.probs = append(j.probs, problem{"verdict-consistent", fmt.Sprintf("instance %s, %s: the block was executed, the same transaction list was refused at %s (%s)", j.name, where, v.where, v.err), ""})
+		}
+	} else {
+		L.blocks[bk] = blockSeen{where: "instance " + j.name + " " + where}
+	}
+	if tx, must := blockMustRefuse(b); must {
+		j.hit("malformed-refused")
+		j.probs = append(j.probs, problem{"malformed-refused", fmt.Sprintf("instance %s, %s: a block holding %q (not of the form key=value with a key) was executed (root %q)", j.name, where, tx, root), ""})
+	}
+	for _, tx := range b.Txs {
+		if v, ok := L.book.lookup(tx); ok && v.refused {
+			j.hit("verdict-consistent")
+			j.probs = append(j.probs, problem{"verdict-consistent", fmt.Sprintf("instance %s, %s: transaction %q was executed inside the block, offered alone it is refused (%s)", j.name, where, tx, v.err), ""})
+		}
+		if len(b.Txs) <= 16 {
+			if _, ok := L.okTx[tx]; !ok {
+				L.okTx[tx] = "instance " + j.name + " " + where
+			}
+		}
+	}
+}
+
+func (j *instJudge) modelVerdict(b Block) (writes [][2]string, refused bool) {
+	writes, wellFormed, writesFH := parseBlock(b)
+	return writes, !wellFormed || (writesFH && j.fhReserved)
+}
+
+func (j *instJudge) modelApply(writes [][2]string) {
+	for _, w := range writes {
+		j.model[w[0]] = w[1]
+		if w[0] == fhKey {
+			j.physFH, j.hasFH = w[1], true
+		}
+	}
+}
+
+// judgeInstance replays the calls of one instance and compares every observation with what the
+// history has taught so far.
+func judgeInstance(name, other string, h History, L *learned, ops []Op, obs []Obs, fhReserved bool, hit hitFn, count countFn) *instJudge {
+	j := &instJudge{name: name, other: other, h: h, L: L, hit: hit, count: count, firstRoot: map[int]string{}, since: map[string]bool{}, model: map[string]string{}, fhReserved: fhReserved}
 	if len(obs) != len(ops) {
-		j.probs = append(j.probs, problem{"harness", fmt.Sprintf("instance %s: %d calls but %d observations", name, len(ops), len(obs)), false})
+		j.probs = append(j.probs, problem{"harness", fmt.Sprintf("instance %s: %d calls but %d observations", name, len(ops), len(obs)), ""})
 		return j
 	}
 	for i, op := range ops {
@@ -161,93 +496,41 @@ func judgeInstance(name string, h History, ops []Op, obs []Obs, fhReserved bool,
 		switch op.K {
 		case "init":
 			j.inits++
-			if o.Err != "" {
-				j.probs = append(j.probs, problem{"init-idempotent", fmt.Sprintf("instance %s, %s: InitChain failed: %s", name, what, o.Err), false})
-				break
-			}
-			if !j.inited {
-				j.inited = true
-				j.genesis = string(o.Root)
-				// the first call reports the state at genesis time
-				j.checkRoot("init-root", what+" (first InitChain)", string(o.Root), hit)
-			} else {
-				hit("init-idempotent")
-				if string(o.Root) != j.genesis {
-					j.probs = append(j.probs, problem{"init-idempotent", fmt.Sprintf("instance %s, %s: InitChain returned %q, the first call returned %q", name, what, o.Root, j.genesis), false})
-				}
-			}
+			j.judgeInit(i, what, o)
 			j.since["initchain"] = true
 		case "exec", "reexec":
 			b := h.Blocks[op.B]
-			what = fmt.Sprintf("call %d %s block %d %q", i, op.K, op.B, b.Txs)
-			writes, wellFormed, writesFH := parseBlock(b)
-			refused := !wellFormed || (writesFH && fhReserved)
-			if refused {
-				if !wellFormed {
-					hit("malformed-refused")
-				} else {
-					hit("reserved-finalizedHeight-tx-refused")
+			what = fmt.Sprintf("call %d %s block %d %.200q", i, op.K, op.B, b.Txs)
+			first, done := j.firstRoot[op.B]
+			if op.K == "reexec" && done {
+				var next *Obs
+				if i+1 < len(ops) && ops[i+1].K == "observe" && obs[i+1].Err == "" {
+					next = &obs[i+1]
 				}
-				if o.Err == "" {
-					cl := "malformed-refused"
-					if wellFormed {
-						cl = "reserved-key-consistent"
-					}
-					j.probs = append(j.probs, problem{cl, fmt.Sprintf("instance %s, %s: a block that must be refused was executed (root %q)", name, what, o.Root), false})
-				}
-				// the model does not change; the next observed root tells whether the store did
-				j.since["refused-block"] = true
-				j.cleanRe = false
-				break
-			}
-			if o.Err != "" {
-				cl := "execute-ok"
-				if writesFH {
-					cl = "reserved-key-consistent"
-				}
-				j.probs = append(j.probs, problem{cl, fmt.Sprintf("instance %s, %s: well-formed block refused: %s", name, what, o.Err), false})
-				break
-			}
-			for _, w := range writes {
-				j.state[w[0]] = w[1]
-				if w[0] == fhKey {
-					j.physFH, j.hasFH = w[1], true
-					hit("finalizedHeight-tx-accepted-as-ordinary-key")
-				}
-			}
-			if op.K == "reexec" {
-				j.since["re-execution"] = true
-				j.checkRoot("reexec-same-root", what, string(o.Root), hit)
-				if j.cleanRe && j.lastExec == op.B {
-					hit("reexec-equals-first-execution")
-					if string(o.Root) != j.lastRoot {
-						j.probs = append(j.probs, problem{"reexec-same-root", fmt.Sprintf("instance %s, %s: re-execution returned %q, the first execution returned %q, nothing in between", name, what, o.Root, j.lastRoot), false})
-					}
-				}
+				j.judgeReexec(i, what, op, b, o, first, next)
 			} else {
-				j.checkRoot("model-root", what, string(o.Root), hit)
-				j.byBlock[op.B] = j.seen(string(o.Root), true)
+				j.judgeExec(i, what, op, b, o)
 			}
-			j.lastExec, j.lastRoot, j.cleanRe = op.B, string(o.Root), true
 		case "observe":
+			what += " (empty block)"
 			if o.Err != "" {
-				j.probs = append(j.probs, problem{"execute-ok", fmt.Sprintf("instance %s, %s: empty block refused: %s", name, what, o.Err), false})
+				// the only way to look at the root failed: consistency of the verdict is all that can be asked
+				if !j.inited {
+					// the statement does not say whether blocks may be executed before initialisation
+					j.count("execution_before_first_initchain_refused_not_judged")
+				} else {
+					j.refusal(Block{}, what, o.Err)
+				}
+				j.since["refused-block"] = true
 				break
 			}
-			clause := "model-root"
-			if j.since["refused-block"] {
-				clause = "refused-block-changes-nothing"
-			} else if j.since["reopen"] {
-				clause = "reopen-keeps-root"
-			}
-			j.checkRoot(clause, what+" (empty block)", string(o.Root), hit)
-			j.final = j.seen(string(o.Root), true)
+			j.acceptance(Block{}, what, o.Root)
+			j.observeRoot("observe", i, what, string(o.Root))
 		case "setfinal":
 			if o.Err == "" {
 				j.finals++
 				j.physFH, j.hasFH = strconv.FormatUint(op.H, 10), true
 				j.since["setfinal"] = true
-				j.cleanRe = false
 			}
 		case "inject", "gettxs":
 			j.mempool++
@@ -260,52 +543,171 @@ func judgeInstance(name string, h History, ops []Op, obs []Obs, fhReserved bool,
 	return j
 }
 
-func stripFH(root, fh string, has bool) string {
-	if !has {
-		return root
+func (j *instJudge) judgeInit(call int, what string, o Obs) {
+	L := j.L
+	if j.inited {
+		j.hit("init-idempotent")
+		if o.Err != "" {
+			j.probs = append(j.probs, problem{"init-idempotent", fmt.Sprintf("instance %s, %s: InitChain failed (%s) after an earlier call on this instance had succeeded", j.name, what, o.Err), ""})
+		} else if string(o.Root) != j.genesis {
+			j.probs = append(j.probs, problem{"init-idempotent", fmt.Sprintf("instance %s, %s: InitChain returned %q, the first call returned %q", j.name, what, o.Root, j.genesis), ""})
+		}
+		return
 	}
-	return strings.Replace(root, fhKey+":"+fh+";", "", 1)
+	// the first (successful) InitChain of this instance; two instances initialised after the same history agree
+	where := fmt.Sprintf("instance %s %s", j.name, what)
+	if v, ok := L.initOK[j.key]; ok {
+		j.hit("init-instances-agree")
+		if v.refused != (o.Err != "") {
+			j.probs = append(j.probs, problem{"init-instances-agree", fmt.Sprintf("%s with the %s: InitChain error %q; on the other instance, after the same history, at %s: error %q", where, j.histDesc(), o.Err, v.where, v.err), ""})
+		}
+	} else {
+		L.initOK[j.key] = blockSeen{refused: o.Err != "", where: where, err: o.Err}
+	}
+	if o.Err != "" {
+		j.count("first_initchain_failed")
+		if len(j.accepted) == 0 {
+			// nothing was ever executed here: an executor that cannot be initialised cannot take part in any clause
+			j.probs = append(j.probs, problem{"init-idempotent", fmt.Sprintf("%s: InitChain failed on an instance that has executed nothing: %s", where, o.Err), ""})
+		} else {
+			j.count("initchain_after_execution_failed_not_judged")
+		}
+		return
+	}
+	j.inited, j.genesis = true, string(o.Root)
+	j.hit("init-root")
+	cur := j.seen(call, what, string(o.Root))
+	if prev, ok := L.inits[j.key]; ok {
+		if prev.root != cur.root {
+			j.probs = append(j.probs, problem{"init-instances-agree", fmt.Sprintf("%s with the %s: first InitChain returned %q; on instance %s, after the same history, it returned %q", where, j.histDesc(), cur.root, prev.inst, prev.root), ""})
+		}
+	} else {
+		L.inits[j.key] = cur
+	}
+	if !j.modelLost {
+		if cur.root == render(j.model) {
+			j.hit("model-agrees")
+		} else {
+			j.count("model_init_root_differs_not_judged")
+		}
+	}
+}
+
+func (j *instJudge) judgeExec(call int, what string, op Op, b Block, o Obs) {
+	writes, modelRefuses := j.modelVerdict(b)
+	if o.Err != "" {
+		_, must := blockMustRefuse(b)
+		if !j.inited && !must {
+			// the statement does not say whether blocks may be executed before initialisation
+			j.count("execution_before_first_initchain_refused_not_judged")
+		} else {
+			j.refusal(b, what, o.Err)
+		}
+		if !modelRefuses {
+			j.count("model_verdict_differs_not_judged")
+		}
+		// the history does not grow; the next observed root tells whether the store changed
+		j.since["refused-block"] = true
+		return
+	}
+	j.acceptance(b, what, o.Root)
+	if modelRefuses {
+		j.count("model_verdict_differs_not_judged")
+		j.modelLost = true
+	}
+	j.modelApply(writes)
+	j.key = extendKey(j.key, b.Txs)
+	j.accepted = append(j.accepted, op.B)
+	j.firstRoot[op.B] = string(o.Root)
+	j.observeRoot("exec", call, what, string(o.Root))
+}
+
+// judgeReexec judges the repeated offer of a block this instance has already executed.
+// next is the observation of the empty block that directly follows, if there is one.
+func (j *instJudge) judgeReexec(call int, what string, op Op, b Block, o Obs, first string, next *Obs) {
+	tip := len(j.accepted) > 0 && j.accepted[len(j.accepted)-1] == op.B
+	if !tip {
+		// no later block may have touched the same keys: blocks that change nothing in between do not count
+		tip = true
+		for k := len(j.accepted) - 1; k >= 0 && j.accepted[k] != op.B; k-- {
+			if len(j.h.Blocks[j.accepted[k]].Txs) > 0 {
+				tip = false
+				break
+			}
+		}
+	}
+	if o.Err != "" {
+		// "already executed" is a harmless answer as long as nothing changed, which the next root shows
+		j.count("reexecution_refused_not_judged")
+		j.since["re-execution"] = true
+		j.since["refused-block"] = true
+		return
+	}
+	if tip {
+		j.hit("reexec-equals-first-execution")
+		if string(o.Root) != first {
+			j.probs = append(j.probs, problem{"reexec-same-root", fmt.Sprintf("instance %s, %s: re-execution returned %q, the first execution returned %q and no transaction was executed in between%s", j.name, what, o.Root, first, j.modelNote()), ""})
+			j.since["re-execution"] = true
+			return
+		}
+		j.observeRoot("reexec", call, what, string(o.Root))
+		j.since["re-execution"] = true
+		return
+	}
+	// an OLDER block offered again after later blocks
+	j.hit("old-block-reexecuted")
+	var cur string
+	if rec := j.L.roots[j.key]; rec != nil {
+		cur = rec.first.root
+	}
+	got := string(o.Root)
+	// the answer "root of the first execution" has two readings: the stored answer was repeated and nothing
+	// changed, or the transactions were applied again and the state happens to be the one after that block; the
+	// empty block that follows (the generator always adds one) tells which
+	untouched := got == cur || (got == first && (next == nil || string(next.Root) == cur))
+	// whichever way the build treats the repetition, it must be the same way on both instances: they have executed
+	// the same transactions in the same order
+	ok := j.key + "|" + blockKey(b.Txs)
+	here := fmt.Sprintf("instance %s %s", j.name, what)
+	if v, seen := j.L.oldRe[ok]; seen {
+		j.hit("old-block-reexecution-same-effect-on-both-instances")
+		if v.refused != untouched {
+			eff := map[bool]string{true: "left the root unchanged", false: "applied the transactions again"}
+			j.probs = append(j.probs, problem{"instances-equal", fmt.Sprintf("%s with the %s: re-executing the older block %s (returned %q); at %s, after the same history, it %s", here, j.histDesc(), eff[untouched], got, v.where, eff[v.refused]), ""})
+		}
+	} else {
+		j.L.oldRe[ok] = blockSeen{refused: untouched, where: here}
+	}
+	switch {
+	case got == cur:
+		j.hit("old-block-reexecution-left-root-unchanged")
+		j.observeRoot("reexec", call, what, got)
+		j.since["re-execution"] = true
+	case untouched:
+		j.hit("old-block-reexecution-answered-with-its-first-root")
+		j.since["re-execution"] = true
+	default:
+		// the transactions were applied once more on top of the later blocks
+		detail := fmt.Sprintf("instance %s, %s: re-executing the older block returned %q; before it the root was %q, the first execution of that block had returned %q: the transactions were applied again on top of later blocks", j.name, what, o.Root, cur, first)
+		if judgeOldReexec {
+			j.probs = append(j.probs, problem{"reexec-harmless", detail, OldReexecFindingID})
+		} else {
+			j.count("old_block_reexecution_applied_again_not_judged")
+		}
+		// from here on the instance is held to "the transactions were executed once more"
+		writes, _ := j.modelVerdict(b)
+		j.modelApply(writes)
+		j.key = extendKey(j.key, b.Txs)
+		j.accepted = append(j.accepted, op.B)
+		j.firstRoot[op.B] = got
+		j.observeRoot("exec", call, what, got)
+	}
 }
 
 // judgeHistory applies all clauses to one executed history.
-func judgeHistory(h History, obsA, obsB []Obs, fhReserved bool, hit hitFn) []problem {
-	a := judgeInstance("A", h, h.OpsA, obsA, fhReserved, hit)
-	b := judgeInstance("B", h, h.OpsB, obsB, fhReserved, hit)
-	probs := append(append([]problem{}, a.probs...), b.probs...)
-	cmp := func(what string, ra, rb rootSeen) {
-		if !ra.ok || !rb.ok {
-			return
-		}
-		hit("instances-equal")
-		if ra.finals != rb.finals || ra.physFH != rb.physFH || ra.hasFH != rb.hasFH {
-			hit("equal-despite-setfinal-timing")
-		}
-		if ra.mempool != rb.mempool {
-			hit("equal-despite-mempool")
-		}
-		if ra.reopens != rb.reopens {
-			hit("equal-despite-restarts")
-		}
-		if ra.inits != rb.inits {
-			hit("equal-despite-initchain-calls")
-		}
-		if ra.root == rb.root {
-			return
-		}
-		inTrigger := ra.finals > 0 || rb.finals > 0
-		if inTrigger && stripFH(ra.root, ra.physFH, ra.hasFH) == stripFH(rb.root, rb.physFH, rb.hasFH) {
-			probs = append(probs, problem{"instances-equal", fmt.Sprintf("%s: the two instances executed the same blocks but returned %q (A, %d SetFinal calls so far) and %q (B, %d SetFinal calls so far): they differ exactly by a %s entry", what, ra.root, ra.finals, rb.root, rb.finals, fhKey), true})
-			return
-		}
-		probs = append(probs, problem{"instances-equal", fmt.Sprintf("%s: the two instances executed the same blocks but returned %q (A) and %q (B)", what, ra.root, rb.root), false})
-	}
-	for i := range h.Blocks {
-		ra, oka := a.byBlock[i]
-		rb, okb := b.byBlock[i]
-		if oka && okb {
-			cmp(fmt.Sprintf("after block %d", i), ra, rb)
-		}
-	}
-	cmp("at the end", a.final, b.final)
-	return probs
+func judgeHistory(h History, obsA, obsB []Obs, fhReserved bool, book *verdictBook, hit hitFn, count countFn) []problem {
+	L := newLearned(book)
+	a := judgeInstance("A", "B", h, L, h.OpsA, obsA, fhReserved, hit, count)
+	b := judgeInstance("B", "A", h, L, h.OpsB, obsB, fhReserved, hit, count)
+	return append(append([]problem{}, a.probs...), b.probs...)
 }
